@@ -112,7 +112,18 @@ def run(ctx: Ctx) -> int:
     keydef = None
     if ok and isinstance(c.args[1], ast.Name):
         keydef = next((s.value for s in walk_local(fa) if isinstance(s, ast.Assign) and isinstance(s.targets[0], ast.Name) and s.targets[0].id == c.args[1].id), None)
-    okk = keydef is not None and isinstance(keydef, ast.Call) and call_leaf(keydef) == "lstrip" and const_str(keydef.args[0]) == "-" and ast.unparse(keydef.func.value) == f"{fa.args.vararg.arg}[0]"
+    va = fa.args.vararg.arg
+    okk = False
+    if keydef is not None:
+        kt = ast.unparse(keydef)
+        strips = isinstance(keydef, ast.Call) and call_leaf(keydef) in ("lstrip", "strip", "removeprefix") and keydef.args and set(const_str(keydef.args[0]) or "x") <= {"-"} and ast.unparse(keydef.func.value) == f"{va}[0]"
+        slices = kt == f"{va}[0][2:]"
+        if strips or slices:
+            okk = True
+        elif not any(isinstance(c_, ast.Call) and call_leaf(c_) in ("replace", "split", "lower", "upper", "translate", "join") for c_ in ast.walk(keydef)) and f"{va}[0]" in kt:
+            from .srcmodel import AnalysisError as _AE7
+
+            raise _AE7(f"C07.a: the key of the delegated class arguments is computed as `{kt}`, a form this rule does not know; it must be re-anchored")
     ctx.oblige("C07.a", ok and okk, c, "the class is added under the key named by the option (leading dashes stripped, nothing else changed) and the remaining keyword arguments (default, help, ...) are passed on", fn=fa)
     tpop = c.args[0]
     ctx.oblige("C07.a", isinstance(tpop, ast.Call) and call_leaf(tpop) == "pop" and const_str(tpop.args[0]) == "type", c, "the class handed to add_class_arguments is the declared `type` (removed from the keyword arguments that are passed on)", fn=fa)
